@@ -158,7 +158,7 @@ var intLits = []intLit{
 	// not integers
 	{"abc", 0, 0, bad}, {"1.5", 0, 0, bad}, {"-", 0, 0, bad}, {"+", 0, 0, bad}, {"--1", 0, 0, bad}, {"1-", 0, 0, bad},
 	{"1,2", 0, 0, bad}, {"1 2", 0, 0, bad}, {"0x", 0, 0, bad}, {"1e", 0, 0, bad}, {"true", 0, 0, bad}, {"NaN", 0, 0, bad},
-	{"1x", 0, 0, bad}, {"x1", 0, 0, bad}, {"x", 0, 0, bad}, {"null", 0, 0, bad}, {"1/2", 0, 0, bad}, {"%31", 0, 0, bad},
+	{"1x", 0, 0, bad}, {"x1", 0, 0, bad}, {"x", 0, 0, bad}, {"ab", 0, 0, bad}, {"cd", 0, 0, bad}, {"3.5", 0, 0, bad}, {"1000.5", 0, 0, bad}, {"null", 0, 0, bad}, {"1/2", 0, 0, bad}, {"%31", 0, 0, bad},
 }
 
 type floatLit struct {
@@ -189,7 +189,8 @@ var floatLits = []floatLit{
 	{" 1.5", 1.5, loose, false}, {"1.5 ", 1.5, loose, false}, {"1.5\n", 1.5, loose, false},
 	// not numbers
 	{"abc", 0, bad, false}, {"1,5", 0, bad, false}, {"1.5.2", 0, bad, false}, {"--1", 0, bad, false}, {"1e", 0, bad, false}, {"e3", 0, bad, false},
-	{"-", 0, bad, false}, {".", 0, bad, false}, {"1.5f", 0, bad, false}, {"1.5x", 0, bad, false}, {"x", 0, bad, false}, {"true", 0, bad, false}, {"1 5", 0, bad, false},
+	{"-", 0, bad, false}, {".", 0, bad, false}, {"1.5f", 0, bad, false}, {"1.5x", 0, bad, false}, {"x", 0, bad, false}, {"ab", 0, bad, false}, {"cd", 0, bad, false},
+	{"5", 5, canon, false}, {"42", 42, canon, false}, {"101", 101, canon, false}, {"127", 127, canon, false}, {"128", 128, canon, false}, {"true", 0, bad, false}, {"1 5", 0, bad, false},
 	{"null", 0, bad, false}, {"1/2", 0, bad, false},
 }
 
@@ -206,6 +207,8 @@ var boolLits = []boolLit{
 	{"yes", true, loose}, {"no", false, loose}, {"y", true, loose}, {"n", false, loose}, {"Y", true, loose}, {"ON", true, loose},
 	{"ok", true, loose}, {"enabled", true, loose}, {"disabled", false, loose}, {"checked", true, loose}, {"selected", true, loose},
 	{" true", true, loose}, {"true ", true, loose}, {"false\n", false, loose},
+	{"5", false, bad}, {"7", false, bad}, {"42", false, bad}, {"101", false, bad}, {"127", false, bad}, {"128", false, bad}, {"ab", false, bad}, {"cd", false, bad},
+	{"1.5", false, bad}, {"3.5", false, bad}, {"1000.5", false, bad},
 	{"2", false, bad}, {"abc", false, bad}, {"tru", false, bad}, {"truee", false, bad}, {"-1", false, bad}, {"null", false, bad},
 	{"10", false, bad}, {"0.5", false, bad}, {"true,false", false, bad}, {"tr ue", false, bad}, {"maybe", false, bad}, {"é", false, bad},
 }
@@ -399,6 +402,34 @@ func validScalar(name, tpe string, v val) int {
 			return b(x > lo && x < hi)
 		}
 		return b(x >= lo && x <= hi)
+	case "minmax2":
+		hi := 500.0
+		if tpe == "integer" {
+			hi = 50
+		}
+		x := num(v)
+		if math.IsNaN(x) {
+			return -1
+		}
+		return b(x >= 0 && x <= hi)
+	case "enum2":
+		switch tpe {
+		case "integer":
+			return b(v.I == 2 || v.I == 5 || v.I == 42)
+		case "number":
+			return b(v.F == 3.5 || v.F == 100)
+		case "boolean":
+			return b(!v.B)
+		default:
+			return b(v.S == "cd" || v.S == "ef")
+		}
+	case "len2":
+		nb, nr := len(v.S), utf8.RuneCountInString(v.S)
+		ok1, ok2 := nb >= 1 && nb <= 2, nr >= 1 && nr <= 2
+		if ok1 != ok2 {
+			return -1
+		}
+		return b(ok1)
 	case "multipleOf":
 		if v.K == "int" {
 			return b(v.I%7 == 0)
